@@ -24,6 +24,24 @@ CLAIMED["C06"] = ("proof", "Properties/C06.v: each of the 25 GENERATED compute_f
     "(sum = #valid pairs, induction over vectors of any length), swap and complement symmetries. Translation validation on floats "
     "against compute_from_abcd/_compute_abcd; falsifier with an independent oracle over all tables up to a total and vectors "
     "realising them for all 8 bin types.", "7 C06", "Coq proof over translated source + translation validation")
+DATA_NOTE = ("Hand-written executable model of verif/data.py (coq/Model/Data.v, mirrors Data.__init__, _get_common_indices, _get_score, "
+    "get_scores, _apply_axis function by function) with axiom-free theorems for all numbers of inputs, all dimension sizes and orders; "
+    "tied on every run by evaluating the model in coqc (vm_compute) and verif.data.Data on the same seeded datasets / options / requests "
+    "and diffing every returned array; a third, independent coordinate-keyed oracle decides whether a disagreement is a concrete failing "
+    "input; metamorphic falsifier on the implementation. ")
+CLAIMED["C01"] = ("proof", DATA_NOTE + "C01: a case contributes only if every input and the climatology have it, same cases for all inputs, "
+    "non-interference of one input's values on the others (propagation theorems), observation sharing.", "7 C01", "Coq proof over hand model + correspondence check")
+CLAIMED["C02"] = ("proof", DATA_NOTE + "C02: value_by_coordinate (the cell used is the one stored at the first occurrence of the coordinates in the "
+    "input's own lists, through the index recomputation after -d/-tod), first-index and order-free intersection lemmas; permutation of "
+    "entries / input order checked metamorphically on the implementation.", "7 C02", "Coq proof over hand model + correspondence check")
+CLAIMED["C03"] = ("proof", DATA_NOTE + "C03: membership iff for times / lead times / locations incl. all nine subsetting options with inclusive ranges, "
+    "strictly ascending dimensions, -obsrange masking, empty selection never numeric.", "7 C03", "Coq proof over hand model + correspondence check")
+CLAIMED["C04"] = ("proof", DATA_NOTE + "C04: get_scores delivers numbers only or the single NaN, kept positions valid in every requested field, "
+    "missing anywhere => missing everywhere, non-finite anomaly missing; missing-vs-deleted metamorphic relation, reader encodings and "
+    "all-missing slices for a metric sample checked on the implementation.", "7 C04", "Coq proof over hand model + correspondence check")
+CLAIMED["C14"] = ("proof", DATA_NOTE + "C14: obs/fcst become value (-|/) climatology cell by cell, other fields untouched, missing climatology or "
+    "non-finite quotient drops the case for every input, climatology looked up by coordinates and never counted as an input; "
+    "-c X versus X as extra input compared on the implementation.", "7 C14", "Coq proof over hand model + correspondence check")
 PENDING = {}
 
 def main():
